@@ -54,14 +54,19 @@ def safe_eq(a, b):
 
 
 def unorderable_mix(ix):
-    '''True if the labels of some depth mix strings with other types (sorting them raises TypeError).'''
+    '''True if the labels of some depth cannot be sorted (strings next to numbers, numbers next to dates ...): set
+    operations then return them in set order, which depends on the interpreter's hash seed.'''
     try:
         rows = [tuple(t) for t in ix] if ix.depth > 1 else [(x,) for x in ix]
     except Exception:
         return False
     for d in range(ix.depth if rows else 0):
-        kinds = {isinstance(r[d], str) for r in rows if d < len(r)}
-        if len(kinds) > 1:
+        col = [r[d] for r in rows if d < len(r)]
+        if len({isinstance(x, str) for x in col}) > 1:
+            return True
+        try:
+            sorted(col)
+        except Exception:
             return True
     return False
 
